@@ -37,7 +37,7 @@ from pyint import Unsupported, mangle
 EXC = {'ValueError': '.py .valueError', 'TypeError': '.py .typeError', 'IndexError': '.py .indexError'}
 ANN = {'int': 'int', 'str': 'str', 'bool': 'bool'}
 LEAN_T = {'int': 'Int', 'str': 'Str', 'bool': 'Bool', 'optpoint': 'Option Point', 'obj': 'AStr',
-          'slist': 'List Setting', 'setting': 'Setting'}
+          'slist': 'List Setting', 'setting': 'Setting', 'point': 'Point'}
 
 
 class Sig:
@@ -122,9 +122,17 @@ class M:
             if o:
                 return '%s.s' % o, 'str'
         if isinstance(e, ast.Attribute) and e.attr in ('add', 'rem'):
+            if isinstance(e.value, ast.Name) and env.get(e.value.id) == 'point':
+                return '%s.%s' % (mangle(e.value.id), e.attr), 'slist'
             v = self.point_read(e.value, env)
             if v:
                 return '%s.%s' % (v, e.attr), 'slist'
+        if isinstance(e, ast.Attribute) and isinstance(e.value, ast.Name) and env.get(e.value.id) == 'iter' \
+                and env.get(e.attr) == 'slist':
+            return mangle(e.attr), 'slist'                # self.current_settings: a field of the iterator, a variable here
+        if isinstance(e, ast.Attribute) and e.attr == 'WITH_ASSERTIONS' and isinstance(e.value, ast.Name) \
+                and e.value.id in ('AnsiString', '__class__') and env.get('with_assertions') == 'bool':
+            return 'with_assertions', 'bool'
         if isinstance(e, ast.List) and not e.elts:
             return '([] : List Setting)', 'slist'
         if isinstance(e, ast.UnaryOp) and isinstance(e.op, ast.USub):
@@ -242,6 +250,10 @@ class M:
             o = self.obj_of(st.value, env)
             if o:
                 return p + '.ok %s' % o
+            if getattr(self, 'ret', None) == 'slist' and isinstance(st.value, ast.Tuple) and st.value.elts:
+                a, ty = self.ex(st.value.elts[-1], env)       # (idx, settings, self.current_settings): the state handed on
+                if ty == 'slist':
+                    return p + '.ok %s' % a
             raise Unsupported('return ' + ast.unparse(st.value))
         if isinstance(st, ast.If) and getattr(self, 'join', False) and rest:
             j = self.join_if(st, rest, env, K, ind)
@@ -334,8 +346,23 @@ class M:
                     return ('%s%s(Obj.modifyAt %s.fmts %s (fun q_ => { q_ with %s := Py.sliceAssign q_.%s %s %s %s })).bind fun f_ =>\n%slet %s : AStr := { %s with fmts := f_ }\n%s'
                             % (pre, p, d, key, fld, fld, lo, hi, new, p, d, d, K(env, ind)))
             raise Unsupported(ast.unparse(st))
+        if isinstance(st, ast.Delete) and len(st.targets) == 1 and isinstance(st.targets[0], ast.Subscript) \
+                and not isinstance(st.targets[0].slice, ast.Slice):
+            a, ty = self.ex(st.targets[0].value, env)
+            if ty == 'slist' and a.isidentifier():
+                i = self.typed(st.targets[0].slice, env, 'int')
+                pre = self.pre(p)
+                return '%s%s(Py.delIdx %s %s).bind fun %s =>\n%s' % (pre, p, a, i, a, K(env, ind))
+            raise Unsupported(ast.unparse(st))
         if isinstance(st, ast.AugAssign) and isinstance(st.op, ast.Add):
             t = st.target
+            ta = self.ex(t, env) if not (isinstance(t, ast.Attribute) and t.attr == '_s') and not isinstance(t, ast.Name) else None
+            if isinstance(t, ast.Name) and env.get(t.id) == 'slist':
+                ta = (mangle(t.id), 'slist')
+            if ta and ta[1] == 'slist' and ta[0].isidentifier():
+                a = self.typed(st.value, env, 'slist')
+                pre = self.pre(p)
+                return '%s%slet %s : List Setting := %s ++ %s\n%s' % (pre, p, ta[0], ta[0], a, K(env, ind))
             if isinstance(t, ast.Attribute) and t.attr == '_s':
                 o = self.obj_of(t.value, env)
                 if o:
@@ -393,10 +420,26 @@ class M:
                 if isinstance(n, (ast.Break, ast.Continue, ast.Return)):
                     raise Unsupported('break/continue/return in a loop')
             assigned, appended, obj_written = set(), set(), False
+            def state_name(t):
+                if isinstance(t, ast.Name):
+                    return t.id
+                if isinstance(t, ast.Attribute) and isinstance(t.value, ast.Name) and env.get(t.value.id) == 'iter' and env.get(t.attr) == 'slist':
+                    return t.attr
+                return None
             for n in ast.walk(ast.Module(body=st.body, type_ignores=[])):
+                if isinstance(n, ast.Delete):
+                    for t in n.targets:
+                        nm = state_name(t.value) if isinstance(t, ast.Subscript) else None
+                        if nm and env.get(nm) == 'slist':
+                            appended.add(nm)
+                        else:
+                            obj_written = True
                 if isinstance(n, (ast.Assign, ast.AugAssign)):
                     for t in (n.targets if isinstance(n, ast.Assign) else [n.target]):
-                        if isinstance(t, ast.Name):
+                        nm = state_name(t)
+                        if nm and isinstance(n, ast.AugAssign) and env.get(nm) == 'slist':
+                            appended.add(nm)
+                        elif isinstance(t, ast.Name):
                             assigned.add(t.id)
                         else:
                             obj_written = True
@@ -527,6 +570,23 @@ class M:
         ps = ' '.join('(%s : %s)' % (mangle(n), LEAN_T[t]) for n, t in params)
         return '/-- %s -/\ndef %s (self : AStr) %s : Except Exc AStr :=\n%s\ndef %sOk : Bool := true\n' % (doc, name, ps, text, name)
 
+    def lean_iter(self, name, doc, after_target, entry):
+        """`_AnsiSettingsIterator.__next__` from the statement after `<after_target> = …` on: a function of the
+        variables `entry` (the iterator's `current_settings` among them) that yields the new `current_settings`"""
+        body, idx = self.fn.body, None
+        for i, st in enumerate(body):
+            if isinstance(st, ast.Assign) and len(st.targets) == 1 and isinstance(st.targets[0], ast.Name) and st.targets[0].id == after_target:
+                idx = i
+                break
+        if idx is None:
+            raise Unsupported('no assignment to ' + after_target)
+        env = {'self': 'iter'}
+        env.update(dict(entry))
+        self.ret = 'slist'
+        text = self.block(body[idx + 1:], env, lambda e, i: (_ for _ in ()).throw(Unsupported('falls off the end')), 1)
+        ps = ' '.join('(%s : %s)' % (mangle(n), LEAN_T[t]) for n, t in entry)
+        return '/-- %s -/\ndef %s %s : Except Exc (List Setting) :=\n%s\ndef %sOk : Bool := true\n' % (doc, name, ps, text, name)
+
 
 class PointSig:
     point = True
@@ -612,7 +672,7 @@ def lean_name(py):
     return parts[0] + ''.join(x.capitalize() for x in parts[1:])
 
 
-def translate(fns, order, point_fns=None):
+def translate(fns, order, point_fns=None, iter_fns=None):
     """fns: name -> ast.FunctionDef of class AnsiString; point_fns: the same for `_AnsiSettingPoint`;
     order: entries, callees first — a method name, or a dict(py=…, lean=…, after=…, entry=[(name, type)…])
     for a suffix, or dict(py=…, point=True, types={param: type}) for a point method -> Lean source"""
@@ -636,6 +696,19 @@ def translate(fns, order, point_fns=None):
             except Unsupported as e:
                 out.append('/-- %s — NOT TRANSLATED (%s) -/\ndef %s (p : Point) %s : Point := p\ndef %sOk : Bool := false\n'
                            % (doc, str(e).replace('-/', ''), ln, ' '.join('(_%s : %s)' % (n, LEAN_T[t]) for n, t in spec['types'].items()), ln))
+            continue
+        if spec.get('iter'):
+            fn = (iter_fns or {}).get(nm)
+            doc = '`_AnsiSettingsIterator.%s` after `%s = …`: the new `current_settings`, statement by statement' % (nm, spec['after_target'])
+            try:
+                if fn is None:
+                    raise Unsupported('no such method')
+                m = M.__new__(M)
+                m.fn, m.sigs, m.aliased, m.pending, m.nread, m.sig, m.join = fn, dict(sigs), False, [], 0, None, False
+                out.append(m.lean_iter(ln, doc, spec['after_target'], spec['entry']))
+            except Unsupported as e:
+                out.append('/-- %s — NOT TRANSLATED (%s) -/\ndef %s %s : Except Exc (List Setting) := .error .outside\ndef %sOk : Bool := false\n'
+                           % (doc, str(e).replace('-/', ''), ln, ' '.join('(_%s : %s)' % (n, LEAN_T[t]) for n, t in spec['entry']), ln))
             continue
         fn = fns.get(nm)
         doc = '`AnsiString.%s`, statement by statement' % nm
